@@ -31,7 +31,7 @@ CHECKS = {
  "C14": ("the real LocalClient against a map-based reference over AddVersion histories of up to 3 (thorough 4) steps with a symbolic tag (none, latest, other) and requirement types, incl. an unparsable npm version: lookups, listings in exact npm order, requirements, matching, mentioned packages, not-found", "§7 C14, §11"),
  "C15": ("partial: interpolation terminates, leaves and reports unresolved placeholders (symbolic dictionaries incl. cycles; arbitrary bytes); precedence lemmas (child over parent, explicit over un-prefixed built-ins, prefixed built-ins over explicit properties, dependencyManagement imports depth-first in declaration order with first declaration winning). Equality with Maven's model builder is not decided", "§7 C15, §11"),
  "C16": ("ParseDependency and CanonPackageName against the decomposition known by construction of PEP 508 strings; marker parser+evaluator against a transcription of packaging's rule (variable x operator x literal incl. v-prefixed versions, literal or extra on either side, and/or/parentheses)", "§7 C16, §11"),
- "C18": ("partial, sequential: alias split (npm:name@range) in flattenNPMDeps, several dependencies across the four sections plus bundleDependencies each keeping its own name, range, section and alias, the bundle mapping of npmRequirements over symbolic names and bundle trees (depth <= 3, bundles installed under an alias), and end to end the npm resolver over the API-backed client (an in-process stand-in implementing the generated InsightsClient interface) against the in-memory client on skeleton universes; gRPC transport and goroutine interleavings are not decided", "§7 C18, §11"),
+ "C18": ("partial: alias split (npm:name@range) in flattenNPMDeps, several dependencies across the four sections plus bundleDependencies each keeping its own name, range, section and alias, the bundle mapping of npmRequirements over symbolic names and bundle trees (depth <= 3, bundles installed under an alias), end to end the npm resolver over the API-backed client (an in-process stand-in implementing the generated InsightsClient interface) against the in-memory client on skeleton universes, and the race clause as a lockset discipline on one Resolve through a shared API-backed client (counterexamples replayed as 8 concurrent resolutions under the race detector); gRPC transport and goroutine interleavings themselves are not explored", "§7 C18, §11"),
  "C19": ("order laws and equality characterisation of attr.Set.Compare, clone independence, versiontest text round trip (incl. values that spell attribute key names)", "§7 C19, §11"),
 }
 
